@@ -113,6 +113,10 @@ func (o *orbitDBAccessController) getAuthorizations() (map[string][]string, erro
 }
 
 func (o *orbitDBAccessController) CanAppend(entry logac.LogEntry, p identityprovider.Interface, _ accesscontroller.CanAppendAdditionalContext) error {
+	if entry.GetIdentity() == nil {
+		return fmt.Errorf("entry has no identity")
+	}
+
 	writeAccess, err := o.GetAuthorizedByRole("write")
 	if err != nil {
 		return fmt.Errorf("unable to get keys with write access: %w", err)
